@@ -875,4 +875,188 @@ theorem trynext_sim : ∀ f : Nat,
             · rw [List.getElem?_set_ne hjj] at hch
               exact hjs j' (List.mem_cons_of_mem _ hj') ch hch
 
+mutual
+  theorem stContains_sim (nm : Name) : ∀ (t t' : ST), Sim t t' → stContains t nm = stContains t' nm
+    | .simple n v im, .simple n' v' im', h => by obtain ⟨rfl, _, _⟩ := h; rfl
+    | .mult .or v c c1 k cs, .mult .or v' c' c1' k' cs', h => by
+      simp only [Sim] at h; simp only [stContains]; exact stContainsL_sim nm cs cs' h.2.2.2.1
+    | .mult .and v c c1 k cs, .mult .and v' c' c1' k' cs', h => by
+      simp only [Sim] at h; simp only [stContains]; exact stContainsL_sim nm cs cs' h.2
+    | .mult .andor v c c1 k cs, .mult .andor v' c' c1' k' cs', h => by
+      simp only [Sim] at h; simp only [stContains]; exact stContainsL_sim nm cs cs' h.2
+    | .simple _ _ _, .mult .and _ _ _ _ _, h => by simp [Sim] at h
+    | .mult .and _ _ _ _ _, .simple _ _ _, h => by simp [Sim] at h
+    | .mult .and _ _ _ _ _, .mult .or _ _ _ _ _, h => by simp [Sim] at h
+    | .mult .and _ _ _ _ _, .mult .andor _ _ _ _ _, h => by simp [Sim] at h
+    | .simple _ _ _, .mult .or _ _ _ _ _, h => by simp [Sim] at h
+    | .mult .or _ _ _ _ _, .simple _ _ _, h => by simp [Sim] at h
+    | .mult .or _ _ _ _ _, .mult .and _ _ _ _ _, h => by simp [Sim] at h
+    | .mult .or _ _ _ _ _, .mult .andor _ _ _ _ _, h => by simp [Sim] at h
+    | .simple _ _ _, .mult .andor _ _ _ _ _, h => by simp [Sim] at h
+    | .mult .andor _ _ _ _ _, .simple _ _ _, h => by simp [Sim] at h
+    | .mult .andor _ _ _ _ _, .mult .and _ _ _ _ _, h => by simp [Sim] at h
+    | .mult .andor _ _ _ _ _, .mult .or _ _ _ _ _, h => by simp [Sim] at h
+  theorem stContainsL_sim (nm : Name) : ∀ (cs cs' : List ST), SimL cs cs' → stContainsL cs nm = stContainsL cs' nm
+    | [], [], _ => rfl
+    | a :: l, b :: l', h => by simp only [stContainsL, stContains_sim nm a b h.1, stContainsL_sim nm l l' h.2]
+    | [], _ :: _, h => by simp [SimL] at h
+    | _ :: _, [], h => by simp [SimL] at h
+end
+
+mutual
+  theorem stHit_sim (nm : Name) : ∀ (t t' : ST), Sim t t' → stHit t nm = stHit t' nm
+    | .simple n v im, .simple n' v' im', h => by obtain ⟨rfl, _, _⟩ := h; rfl
+    | .mult .or v c c1 k cs, .mult .or v' c' c1' k' cs', h => by
+      simp only [Sim] at h
+      obtain ⟨_, rfl, _, hs, _⟩ := h
+      simp only [stHit, SimL_length hs]
+      split
+      · exact stHitAt_sim nm cs cs' _ hs
+      · exact stHitAny_sim nm cs cs' hs
+    | .mult .and v c c1 k cs, .mult .and v' c' c1' k' cs', h => by
+      simp only [Sim] at h; simp only [stHit]; exact stHitAny_sim nm cs cs' h.2
+    | .mult .andor v c c1 k cs, .mult .andor v' c' c1' k' cs', h => by
+      simp only [Sim] at h; simp only [stHit]; exact stHitAny_sim nm cs cs' h.2
+    | .simple _ _ _, .mult .and _ _ _ _ _, h => by simp [Sim] at h
+    | .mult .and _ _ _ _ _, .simple _ _ _, h => by simp [Sim] at h
+    | .mult .and _ _ _ _ _, .mult .or _ _ _ _ _, h => by simp [Sim] at h
+    | .mult .and _ _ _ _ _, .mult .andor _ _ _ _ _, h => by simp [Sim] at h
+    | .simple _ _ _, .mult .or _ _ _ _ _, h => by simp [Sim] at h
+    | .mult .or _ _ _ _ _, .simple _ _ _, h => by simp [Sim] at h
+    | .mult .or _ _ _ _ _, .mult .and _ _ _ _ _, h => by simp [Sim] at h
+    | .mult .or _ _ _ _ _, .mult .andor _ _ _ _ _, h => by simp [Sim] at h
+    | .simple _ _ _, .mult .andor _ _ _ _ _, h => by simp [Sim] at h
+    | .mult .andor _ _ _ _ _, .simple _ _ _, h => by simp [Sim] at h
+    | .mult .andor _ _ _ _ _, .mult .and _ _ _ _ _, h => by simp [Sim] at h
+    | .mult .andor _ _ _ _ _, .mult .or _ _ _ _ _, h => by simp [Sim] at h
+  theorem stHitAny_sim (nm : Name) : ∀ (cs cs' : List ST), SimL cs cs' → stHitAny cs nm = stHitAny cs' nm
+    | [], [], _ => rfl
+    | a :: l, b :: l', h => by
+      simp only [stHitAny, Sim_viable h.1, stHit_sim nm a b h.1, stHitAny_sim nm l l' h.2]
+    | [], _ :: _, h => by simp [SimL] at h
+    | _ :: _, [], h => by simp [SimL] at h
+  theorem stHitAt_sim (nm : Name) : ∀ (cs cs' : List ST) (i : Nat), SimL cs cs' → stHitAt cs i nm = stHitAt cs' i nm
+    | [], [], _, _ => rfl
+    | a :: l, b :: l', 0, h => by simp only [stHitAt]; exact stHit_sim nm a b h.1
+    | a :: l, b :: l', i + 1, h => by simp only [stHitAt]; exact stHitAt_sim nm l l' i h.2
+    | [], _ :: _, _, h => by simp [SimL] at h
+    | _ :: _, [], _, h => by simp [SimL] at h
+end
+
+theorem oddChildren_sim : ∀ (cs cs' : List ST), SimL cs cs' → SimL (oddChildren cs) (oddChildren cs')
+  | [], [], _ => trivial
+  | [a], [b], _ => trivial
+  | a :: a2 :: l, b :: b2 :: l', h => ⟨h.2.1, oddChildren_sim l l' h.2.2⟩
+  | [], _ :: _, h => by simp [SimL] at h
+  | _ :: _, [], h => by simp [SimL] at h
+  | [_], _ :: _ :: _, h => by simp [SimL] at h
+  | _ :: _ :: _, [_], h => by simp [SimL] at h
+
+theorem all_hit_sim (nm : Name) : ∀ (l l' : List ST), SimL l l' →
+    l.all (fun ch => !(stContains ch nm) || stHit ch nm) = l'.all (fun ch => !(stContains ch nm) || stHit ch nm)
+  | [], [], _ => rfl
+  | a :: l, b :: l', h => by
+    simp only [List.all_cons, stContains_sim nm a b h.1, stHit_sim nm a b h.1, all_hit_sim nm l l' h.2]
+  | [], _ :: _, h => by simp [SimL] at h
+  | _ :: _, [], h => by simp [SimL] at h
+
+theorem hitMultNodes_sim (combo : Bool) (t t' : ST) (es : Ents) (h : Sim t t') :
+    hitMultNodes combo t es = hitMultNodes combo t' es := by
+  unfold hitMultNodes
+  split
+  · rfl
+  · rcases Sim_cases h with ⟨n, v, im, rfl, rfl⟩ | ⟨v, c, c1, c1', k, cs, cs', rfl, rfl, hs, hc⟩ |
+      ⟨v, c, c1, k, c', c1', k', cs, cs', rfl, rfl, hs⟩ | ⟨v, c, c1, k, c', c1', k', cs, cs', rfl, rfl, hs⟩
+    · rfl
+    all_goals
+      simp only
+      have key : ∀ node : ENode, (oddChildren cs).all (fun ch => !(stContains ch node.name) || stHit ch node.name) =
+          (oddChildren cs').all (fun ch => !(stContains ch node.name) || stHit ch node.name) :=
+        fun node => all_hit_sim node.name _ _ (oddChildren_sim cs cs' hs)
+      simp only [key]
+
+theorem retry_sim (combo : Bool) : ∀ (f : Nat) (t t' : ST) (es : Ents), Sim t t' →
+    ORel (fun a b => a = b) (retry f combo t es) (retry f combo t' es) := by
+  intro f
+  induction f with
+  | zero => intro _ _ _ _; simp [retry, ORel]
+  | succ f ih =>
+    intro t t' es h
+    simp only [retry]
+    refine ORel_bind ((trynext_sim f).1 t t' es h) (fun a a' haa => ?_)
+    obtain ⟨a1, a2, a3⟩ := a
+    obtain ⟨b1, b2, b3⟩ := a'
+    obtain ⟨h1, h2⟩ := haa
+    simp only at h1 h2
+    cases h2
+    simp only [hitMultNodes_sim combo a1 b1 a2 h1]
+    split
+    · split
+      · exact ORel_pure rfl
+      · exact ih a1 b1 a2 h1
+    · split
+      · exact ih a1 b1 a2 h1
+      · exact ORel_pure rfl
+
+
+theorem matchesAt_fresh (fuel : Nat) (combo : Bool) (head : Tree) (es : Ents) :
+    matchesAt fuel combo head (fresh head) es = matchesList fuel combo head es := rfl
+
+theorem matchesAt_sim (fuel : Nat) (combo : Bool) (head : Tree) (h0 h0' : ST) (es : Ents) (h : Sim h0 h0') :
+    matchesAt fuel combo head h0 es = matchesAt fuel combo head h0' es := by
+  have key : ORel (fun a b => a = b) (matchesAt fuel combo head h0 es) (matchesAt fuel combo head h0' es) := by
+    unfold matchesAt
+    split
+    · exact ORel_crash _
+    · split
+      · exact ORel_ok rfl
+      · refine ORel_bind ((nonors_sim fuel).1 h0 h0' es h) (fun a a' haa => ?_)
+        obtain ⟨a1, a2, a3⟩ := a
+        obtain ⟨b1, b2, b3⟩ := a'
+        obtain ⟨h1, h2⟩ := haa
+        simp only at h1 h2
+        cases h2
+        simp only
+        split
+        · exact ORel_pure rfl
+        · split
+          · exact ORel_pure rfl
+          · refine ORel_bind ((ors_sim fuel).1 a1 b1 a2 h1) (fun x x' hx => ?_)
+            obtain ⟨x1, x2, x3⟩ := x
+            obtain ⟨y1, y2, y3⟩ := x'
+            obtain ⟨hx1, hx2⟩ := hx
+            simp only at hx1 hx2
+            cases hx2
+            simp only [hitMultNodes_sim combo x1 y1 x2 hx1]
+            split
+            · exact ORel_pure rfl
+            · split
+              · exact retry_sim combo fuel x1 y1 x2 hx1
+              · exact ORel_pure rfl
+  cases h1 : matchesAt fuel combo head h0 es <;> cases h2 : matchesAt fuel combo head h0' es <;>
+    rw [h1, h2] at key <;> simp only [ORel] at key
+  · rw [key]
+  · rw [key]
+
+mutual
+  /-- whatever a matching attempt leaves, `reset()` gives a state the matcher cannot tell from the constructed one -/
+  theorem reset_sim : ∀ (t : ST), Sim (resetST t) (fresh (trV (skel t)))
+    | .simple n v im => ⟨rfl, rfl, rfl⟩
+    | .mult .and v c c1 k cs => by simp only [resetST, skel, trV, fresh, Sim]; exact ⟨trivial, resetL_sim cs⟩
+    | .mult .andor v c c1 k cs => by simp only [resetST, skel, trV, fresh, Sim]; exact ⟨trivial, resetL_sim cs⟩
+    | .mult .or v c c1 k cs => by
+      simp only [resetST, skel, trV, fresh, Sim]
+      exact ⟨trivial, by decide, by decide, resetL_sim cs, Or.inr ⟨by decide, by decide⟩⟩
+  theorem resetL_sim : ∀ (cs : List ST), SimL (resetL cs) (freshL (trVL (skelL cs)))
+    | [] => trivial
+    | c :: cs => by simp only [resetL, skelL, trVL, freshL, SimL]; exact ⟨reset_sim c, resetL_sim cs⟩
+end
+
+/-- **the verdict on a request does not depend on the requests before it**: started on the hierarchy in the state
+`reset()` makes of *any* state `t` of that hierarchy, `matches` answers as on the freshly constructed one -/
+theorem matches_after_reset (fuel : Nat) (combo : Bool) (head : Tree) (t : ST) (ht : trV (skel t) = head) (es : Ents) :
+    matchesAt fuel combo head (resetST t) es = matchesList fuel combo head es := by
+  rw [← matchesAt_fresh, ← ht]
+  exact matchesAt_sim fuel combo _ _ _ es (reset_sim t)
+
 end StepModel.Complex.Match
